@@ -134,6 +134,7 @@ structure Sess (σ : Type) where
   pre : List Spec := []       -- `_pre_run_event_specs`: what reset() replays
   accCancelled : Nat := 0     -- `events_cancelled` / time-travel warnings of the runs before the last reset
   accStale : Nat := 0         --   (neither counter is reset by reset())
+  start : Nat := 0            -- `start_time`: the clock every run starts from
 
 /-- `Simulation.schedule(e)` from outside the loop, before the run or while it is paused: the event
     gets the next creation index (it is younger than everything created so far) -/
@@ -144,10 +145,10 @@ def injectSt {σ} (s : St σ) (ent' : σ) (sp : Spec) : St σ :=
 
 /-- engine state after `control.reset()`: a new heap holding re-created copies of the pre-run
     events (fresh creation indices `base, base+1, …` in the original order; completion hooks and
-    cancellations are not replayed), clock and counters at zero; entity state is kept -/
-def resetSt {σ} (base : Nat) (ent : σ) (pre : List Spec) : St σ :=
-  let evs := mkEvents base 0 pre
-  { heap := evs, now := 0, nextId := base + pre.length, ent := ent, primary := countPrimary evs }
+    cancellations are not replayed), clock at `start_time`, counters at zero; entity state is kept -/
+def resetSt {σ} (base start : Nat) (ent : σ) (pre : List Spec) : St σ :=
+  let evs := mkEvents base start pre
+  { heap := evs, now := start, nextId := base + pre.length, ent := ent, primary := countPrimary evs }
 
 /-- a control script applied from outside between calls of `run()` -/
 def Sess.apply {σ} [Probe σ] (m : Machine σ) (x : Ext σ) (endT : Option Nat) (fuel : Nat) (z : Sess σ) : Cmd → Sess σ
@@ -166,7 +167,7 @@ def Sess.apply {σ} [Probe σ] (m : Machine σ) (x : Ext σ) (endT : Option Nat)
     let r := ctlLoop m endT fuel z.s (z.c.step n)
     { z with s := r.1, c := r.2.1, running := r.2.2 != .complete, paused := r.2.2 == .paused, started := true }
   | .reset =>
-    { s := resetSt z.s.nextId (x.reseat z.s.ent z.pre.length) z.pre, c := z.c.reset,
+    { s := resetSt z.s.nextId z.start (x.reseat z.s.ent z.pre.length) z.pre, c := z.c.reset, start := z.start,
       running := false, paused := false, started := false, pre := z.pre,
       accCancelled := z.accCancelled + z.s.nCancelled, accStale := z.accStale + z.s.nStale }
   | .sched sp rel =>
